@@ -106,7 +106,39 @@ fn play_history(t: &mut Tape, h: &mut Hist, want_stop: bool) -> Result<(), (Stri
         }
         h.term.take();
         let nums = numbers_of(&h.term);
-        match t.weighted(&[6, 2, 2, 2, 4, 3, 1, 1]) {
+        match t.weighted(&[6, 2, 2, 2, 4, 3, 1, 1, 3]) {
+            8 => {
+                // re-enter a stored line: verbatim, or with the letters inside its string
+                // literals / remark in the other case (the smallest possible effective edit)
+                let lines = listing(&h.term);
+                if lines.is_empty() {
+                    continue;
+                }
+                let old = lines[t.below(lines.len())].clone();
+                let mut in_str = false;
+                let mut rem = false;
+                let flip = t.chance(3, 4);
+                let mut new = String::new();
+                let up = old.to_ascii_uppercase();
+                for (i, c) in old.char_indices() {
+                    if c == '"' {
+                        in_str = !in_str;
+                    }
+                    if !in_str && (up[i..].starts_with("REM") || c == '\'') {
+                        rem = true;
+                    }
+                    if flip && (in_str || (rem && !up[i..].starts_with("REM") && i > 0 && !up[..i].ends_with("RE") && !up[..i].ends_with("R"))) && c.is_ascii_alphabetic() {
+                        new.push(if c.is_ascii_uppercase() { c.to_ascii_lowercase() } else { c.to_ascii_uppercase() });
+                    } else {
+                        new.push(c);
+                    }
+                }
+                if h.edit(&new) {
+                    h.labels.push("case-only edit inside a literal or remark");
+                } else {
+                    h.labels.push("a stored line re-entered verbatim");
+                }
+            }
             0 => {
                 // insert / replace with a line of the other program (references may dangle)
                 if spare.is_empty() {
@@ -323,9 +355,28 @@ fn check_no_resume(t: &mut Tape, ctx: &Ctx) -> Outcome {
     if nums.is_empty() {
         return Outcome::discard("empty listing");
     }
-    let kind = t.below(6);
+    let kind = t.below(7);
     let n = *t.pick(&nums);
     let cmd = match kind {
+        6 => {
+            // the same line with the letters inside its string literals in the other case
+            let old = listing(&h.term).into_iter().find(|l| l.starts_with(&format!("{} ", n))).unwrap_or_default();
+            let mut in_str = false;
+            old.chars()
+                .map(|c| {
+                    if c == '"' {
+                        in_str = !in_str;
+                    }
+                    if in_str && c.is_ascii_uppercase() {
+                        c.to_ascii_lowercase()
+                    } else if in_str && c.is_ascii_lowercase() {
+                        c.to_ascii_uppercase()
+                    } else {
+                        c
+                    }
+                })
+                .collect()
+        }
         0 => format!("{} PRINT \"NEW LINE\"", n),
         1 => format!("{}", n),
         2 => format!("DELETE {}", n),
@@ -364,6 +415,7 @@ fn check_no_resume(t: &mut Tape, ctx: &Ctx) -> Outcome {
         1 => "edit kind: bare number",
         2 | 5 => "edit kind: DELETE",
         3 => "edit kind: insert a line",
+        6 => "edit kind: case-only change inside a string literal",
         _ => "edit kind: RENUM",
     });
     labels.sort();
